@@ -83,6 +83,7 @@ func BuildLegacy(r *rand.Rand, root string, tag string) Legacy {
 		}
 		L.Kinds = append(L.Kinds, kind)
 		descs := []any{}
+		accDescs := []any{} // the accurate descriptors of this subject's own referrers
 		for j := 0; j < nref; j++ {
 			subjFor := sd
 			if kind == "mixed-subject" && j == 0 && len(L.Subjects) > 1 {
@@ -100,6 +101,9 @@ func BuildLegacy(r *rand.Rand, root string, tag string) Legacy {
 				eff = MTConfig
 			}
 			dsc := map[string]any{"mediaType": MTImage, "digest": a.D, "size": len(a.Raw), "artifactType": eff, "annotations": a.Ann}
+			if subjFor == sd {
+				accDescs = append(accDescs, map[string]any{"mediaType": MTImage, "digest": a.D, "size": len(a.Raw), "artifactType": eff, "annotations": a.Ann})
+			}
 			if j == 0 {
 				switch kind {
 				case "stale-size":
@@ -136,6 +140,18 @@ func BuildLegacy(r *rand.Rand, root string, tag string) Legacy {
 			L.OtherTags[ot] = fbd
 			entries = append(entries, tagEntry(MTIndex, fbd, len(fb), ot))
 			L.Kinds[len(L.Kinds)-1] += "+also-tagged"
+		}
+		if nref >= 2 && kind != "accurate" && len(accDescs) >= 2 && r.Intn(3) == 0 {
+			// ... or a converted response that lists the same referrers as the (unusable as it is) fallback index, in
+			// another order: the sources overlap completely, the result lists each referrer once
+			var rev []any
+			for k := len(accDescs) - 1; k >= 0; k-- {
+				rev = append(rev, accDescs[k])
+			}
+			old, _ := json.Marshal(map[string]any{"schemaVersion": 2, "mediaType": MTIndex, "manifests": rev})
+			od := wr(old, "sha256")
+			entries = append(entries, map[string]any{"mediaType": MTIndex, "digest": od, "size": len(old), "annotations": map[string]string{"org.olareg.referrer.subject": sd}})
+			L.Kinds[len(L.Kinds)-1] += "+overlapping-response"
 		}
 		if nref >= 2 && kind == "accurate" && r.Intn(3) == 0 {
 			// a converted response for the same subject already sits in the (unmarked) index.json, written when only
